@@ -279,9 +279,8 @@ class global_variables():
         self.dw = None
         self.w = None
 
-        attrs = [attr for attr in dir(gv) if not callable(getattr(gv, attr)) and not attr.startswith("__") and not (attr in ['sps', 'R', 'fs', 'dt', 'wavelength', 'f0', 'N', 't', 'w', 'dw'])]
-        
-        for attr in attrs:
+        # every other instance attribute is a custom variable, whatever its value (functions and classes included)
+        for attr in [attr for attr in vars(self) if attr not in ['sps', 'R', 'fs', 'dt', 'wavelength', 'f0', 'N', 't', 'w', 'dw']]:
             delattr(self, attr)
 
 
